@@ -17,7 +17,7 @@ type Variant struct {
 	Phase  string `json:"phase"`
 	TCP    bool   `json:"tcp"`
 
-	Family string `json:"-"` // generation family: names the violation class when a variant is wrongly let through
+	Family string `json:"family,omitempty"` // generation family: names the violation class when a variant is wrongly let through
 	Class  string `json:"-"`
 }
 
